@@ -106,7 +106,8 @@ def commitOk (s : State) (name key : String) : Prop :=
 def removeOk (s : State) (key : String) : Prop :=
   (∃ sn, findKey s.snaps key = some sn) ∧ ∀ a ∈ s.snaps, a.parent ≠ key
 
-/-- the directories `getCleanupDirectories(cleanupCommitted = false)` returns -/
+/-- the directories `getCleanupDirectories(cleanupCommitted = false)` returns (as a set; the order
+`Readdirnames` yields is the caller-supplied `order` of the op, see `arrange`) -/
 def orphans (s : State) : List Dir := s.dirs.filter (fun d => !liveDir s.snaps d)
 
 /-- where a createSnapshot continues after its commit: Prepare with a target mounts next -/
@@ -162,12 +163,12 @@ inductive CStep (v : Variant) : CState → CState → Prop where
   | remove (c : CState) (i : Nat) (key : String) (order : List Dir)
       (hpc : c.th i = .idle (.remove key order)) (hlock : c.lockFree) (hok : removeOk c.s key) :
       CStep v c (c.run i (.txRemove key)
-        (if c.s.cfg.asyncRemove then .done else .clean (orphans (applyStep c.s (.txRemove key))) false))
+        (if c.s.cfg.asyncRemove then .done else .clean (arrange order (orphans (applyStep c.s (.txRemove key)))) false))
   /-- Cleanup's directory scan (`cleanupDirectories`): under the writer lock — unless the variant
   scans under a read transaction -/
   | cleanupScan (c : CState) (i : Nat) (order : List Dir) (hpc : c.th i = .idle (.cleanup order))
       (hlock : v.cleanupReadTx = false → c.lockFree) :
-      CStep v c (c.goto i (.clean (orphans c.s) false))
+      CStep v c (c.goto i (.clean (arrange order (orphans c.s)) false))
   /-- `o.fs.Unmount(dir/fs)` -/
   | cleanUnmount (c : CState) (i : Nat) (d : Dir) (r : List Dir) (hpc : c.th i = .clean (d :: r) false) :
       CStep v c (c.run i (.fsUnmount d ((c.orc i).unmountOk d)) (.clean (d :: r) true))
